@@ -1,13 +1,24 @@
 (* Property C03, unbounded instances K = 1, control PDUs — acknowledged mode recovers from the loss of any ONE of the
    PDUs that are not File Data or Metadata: the EOF PDU, the ACK (EOF), the Finished PDU, the ACK (Finished); for EVERY
-   file and configuration.  These recoveries go through Positive-ACK timer expiries: rounds without activity advance the
-   clock by [tick] (System.run).  n = number of File Data PDUs of the stream; indices on the sender->receiver direction:
+   file and configuration.  n = number of File Data PDUs of the stream; indices on the sender->receiver direction:
    0 Metadata, 1..n File Data, n+1 EOF, n+2 ACK (Finished); on the receiver->sender direction: 0 ACK (EOF), 1 Finished.
-   The claim is delivery (delivered_ok): a late PDU may legitimately be refused by a handler with a protocol
-   exception (y_errs need not be empty: after a lost ACK (EOF) the Finished PDU reaches a sender that still waits for
-   the ACK (EOF) and refuses it with PduIgnoredForSource).
-   No relation between [tick] and the timer intervals is assumed: as many idle rounds pass as the timer in question
-   needs.  Neither the NAK timer, the NAK limit nor the receiver's maximum packet length matter (no data is lost). *)
+   The claim is delivery (delivered_ok) and that no API call of either entity raises an exception (y_errs = []); it
+   holds for each of the four faults:
+     lost EOF PDU        the sender's Positive-ACK timer expires, the EOF PDU is sent again; then as on a perfect link;
+     lost ACK (EOF)      the receiver completes and sends the Finished PDU; the sender, still waiting for the ACK (EOF),
+                         takes the Finished PDU for it and answers ACK (Finished) in the same call: no timer expiry,
+                         no idle round (before fix 179debf of the Python code, finding F30, the sender refused that
+                         Finished PDU with PduIgnoredForSource, y_errs was not empty, and the recovery needed the
+                         sender's timer not to expire later than the receiver's);
+     lost Finished PDU   the receiver's Positive-ACK timer expires, the Finished PDU is sent again;
+     lost ACK (Finished) the sender finishes; the receiver's timer expires, the re-sent Finished PDU meets the idle sender
+                         whose entity remembers the transaction and answers ACK (Finished, terminated).
+   In none of them does a late duplicate reach a handler that has to refuse it.  Rounds without activity advance the
+   clock by [tick] (System.run); no relation between [tick] and the timer intervals, nor between the two intervals, is
+   assumed: as many idle rounds pass as the timer in question needs.  Neither the NAK timer, the NAK limit nor the
+   receiver's maximum packet length matter (no data is lost).
+   (ControlLossProofs.control_pdu_loss_fault_free is the same statement with the conclusion fault_free_ok: in addition no
+   fault event in either log and exactly one Transaction-Finished indication of the receiver.) *)
 From CFDP Require Import Base LostSeg Fs Crc Checksum Handler Dest Source SourceSpec System.
 From CFDP.proofs Require Import ControlLossProofs.
 
@@ -26,12 +37,6 @@ Theorem c03_control_pdu_loss :
   (* the lost PDU: EOF or ACK (Finished) on the way to the receiver, ACK (EOF) or Finished on the way back *)
   let n := (zlen data + seg - 1) / seg in
   (ft = mkFault 0 (n + 1) 0 0 \/ ft = mkFault 0 (n + 2) 0 0 \/ ft = mkFault 1 0 0 0 \/ ft = mkFault 1 1 0 0) ->
-  (* lost ACK (EOF) only: the sender's Positive-ACK timer does not expire in a later idle round than the receiver's
-     (both are started at the same clock reading; true if r_ack_ms rs <= r_ack_ms rd, and if both intervals are <= tick).
-     The sender refuses the Finished PDU until it has the ACK (EOF); a receiver whose timer expires earlier re-sends the
-     Finished PDU into that refusal, reaches its limit and gives the transaction up, and the sender is left waiting for
-     a Finished PDU forever (counterexample: ControlLossProofs.ack_eof_timer_counterexample) *)
-  (ft = mkFault 1 0 0 0 -> forall j, 0 <= j -> r_ack_ms rd <= j * tick -> r_ack_ms rs <= j * tick) ->
   (* the Positive-ACK timer intervals of both entities are positive: with an interval <= 0 the timer has expired in
      the very call that starts it (sender: Positive ACK Limit fault when the limit is 1; receiver: a second Finished
      PDU is prepared before the first was retrieved -> UnretrievedPdusToBeSent) *)
@@ -46,6 +51,6 @@ Theorem c03_control_pdu_loss :
   l_ind_fin cs = true -> l_ind_fin cd = true ->
   exists fuel,
     let res := transfer cs cd seq0 bits p sn data [ft] fuel tick in
-    delivered_ok dn data res = true.
+    delivered_ok dn data res = true /\ y_errs (fst res) = [].
 Proof. exact control_pdu_loss. Qed.
 Print Assumptions c03_control_pdu_loss.
